@@ -108,7 +108,7 @@ func c01Render(v reflect.Value, depth int) (string, bool) {
 		if depth > 0 && v.Elem().Kind() == reflect.Struct {
 			var sb strings.Builder
 			sb.WriteString("{")
-			for _, o := range c01Getters(v, depth-1) {
+			for _, o := range c01Getters(v, depth-1, nil, 0) {
 				sb.WriteString(o.name)
 				sb.WriteString("=")
 				sb.WriteString(o.val)
@@ -125,16 +125,36 @@ func c01Render(v reflect.Value, depth int) (string, bool) {
 	return "", false
 }
 
-// c01Getters calls every exported zero-argument single-result method of v (a pointer to a library struct)
-func c01Getters(v reflect.Value, depth int) []c01Obs {
+type c01Method struct {
+	idx  int
+	name string
+}
+
+var c01MethodCache = map[reflect.Type][]c01Method{}
+
+// getters of Lunar that recompute neighbouring year tables (several ms each): only called on a sample of days
+var c01Heavy = map[string]int{"GetDayNineStar": 1, "GetTimes": 2, "GetTime": 2}
+
+// c01Getters calls every exported zero-argument single-result method of v (a pointer to a library struct);
+// methods listed in skip with a level above `level` are left out
+func c01Getters(v reflect.Value, depth int, skip map[string]int, level int) []c01Obs {
 	t := v.Type()
-	var obs []c01Obs
-	for i := 0; i < t.NumMethod(); i++ {
-		mt := t.Method(i)
-		if mt.Type.NumIn() != 1 || mt.Type.NumOut() != 1 {
+	ml, ok := c01MethodCache[t]
+	if !ok {
+		for i := 0; i < t.NumMethod(); i++ {
+			mt := t.Method(i)
+			if mt.Type.NumIn() == 1 && mt.Type.NumOut() == 1 {
+				ml = append(ml, c01Method{i, mt.Name})
+			}
+		}
+		c01MethodCache[t] = ml
+	}
+	obs := make([]c01Obs, 0, len(ml)+1)
+	for _, me := range ml {
+		i, name := me.idx, me.name
+		if skip != nil && skip[name] > level {
 			continue
 		}
-		name := mt.Name
 		func() {
 			defer func() {
 				if r := recover(); r != nil {
@@ -150,14 +170,50 @@ func c01Getters(v reflect.Value, depth int) []c01Obs {
 	return obs
 }
 
-// c01Digest: full observable state of a Lunar. deep=true also expands EightChar, NineStar, JieQi,
-// LunarTime, Foto, Tao, ShuJiu, Fu objects one level.
-func c01Digest(l *calendar.Lunar, deep bool) []c01Obs {
+// c01Core: every field of the Lunar structure through its plain getters (all other getters are functions of
+// these), plus a handful of cheap derived ones. Used at every time of day; the reflection digest on a sample.
+func c01Core(l *calendar.Lunar) (obs []c01Obs) {
+	defer func() {
+		if r := recover(); r != nil {
+			obs = append(obs, c01Obs{"core", fmt.Sprintf("!panic %v", r)})
+		}
+	}()
+	ints := []int{l.GetYear(), l.GetMonth(), l.GetDay(), l.GetHour(), l.GetMinute(), l.GetSecond(),
+		l.GetYearGanIndex(), l.GetYearZhiIndex(), l.GetYearGanIndexByLiChun(), l.GetYearZhiIndexByLiChun(),
+		l.GetYearGanIndexExact(), l.GetYearZhiIndexExact(), l.GetMonthGanIndex(), l.GetMonthZhiIndex(),
+		l.GetMonthGanIndexExact(), l.GetMonthZhiIndexExact(), l.GetDayGanIndex(), l.GetDayZhiIndex(),
+		l.GetDayGanIndexExact(), l.GetDayZhiIndexExact(), l.GetDayGanIndexExact2(), l.GetDayZhiIndexExact2(),
+		l.GetTimeGanIndex(), l.GetTimeZhiIndex(), l.GetWeek()}
+	obs = append(obs, c01Obs{"fields", joinInts(ints)})
+	obs = append(obs, c01Obs{"GetSolar", solarStr(l.GetSolar())})
+	obs = append(obs, c01Obs{"String", l.String()})
+	obs = append(obs, c01Obs{"GetJieQi", l.GetJieQi()})
+	obs = append(obs, c01Obs{"GetEightChar", l.GetEightChar().String()})
+	obs = append(obs, c01Obs{"GetXiu", l.GetXiu()})
+	obs = append(obs, c01Obs{"GetZhiXing", l.GetZhiXing()})
+	obs = append(obs, c01Obs{"GetYueXiang", l.GetYueXiang()})
+	obs = append(obs, c01Obs{"GetMonthNineStar", fmt.Sprint(l.GetMonthNineStar().GetIndex())})
+	var p []string
+	for e := l.GetJieQiList().Front(); e != nil; e = e.Next() {
+		p = append(p, fmt.Sprint(e.Value))
+	}
+	obs = append(obs, c01Obs{"GetJieQiList", strings.Join(p, ",")})
+	return obs
+}
+
+// c01Digest: observable state of a Lunar. level -1: c01Core + term table; 0: every getter except the heavy ones; 1: plus GetDayNineStar;
+// 2: every getter, and EightChar, NineStar, JieQi, LunarTime, Foto, Tao, ShuJiu, Fu results expanded one level.
+func c01Digest(l *calendar.Lunar, level int) []c01Obs {
 	d := 0
-	if deep {
+	if level >= 2 {
 		d = 1
 	}
-	obs := c01Getters(reflect.ValueOf(l), d)
+	var obs []c01Obs
+	if level < 0 {
+		obs = c01Core(l)
+	} else {
+		obs = c01Getters(reflect.ValueOf(l), d, c01Heavy, level)
+	}
 	// the term table (a map: rendered in the fixed order of the names)
 	func() {
 		defer func() {
@@ -239,9 +295,9 @@ func c01KeyLess(a, b [3]int) bool {
 
 func searchC01() {
 	ck := &c01Ck{seen: map[string]int{}}
-	nRand := 16
+	nRand := 12
 	steps := stepCounts(20)
-	var nTermTimes, nFarSteps, nCrossYear, nLeapDays, nLunarSide int
+	var nDeep, nRefl, nTermTimes, nFarSteps, nCrossYear, nLeapDays, nLunarSide int
 	var samples []string
 
 	for _, yy := range sweepYears(nRand) {
@@ -310,6 +366,19 @@ func searchC01() {
 			if len(times) > 3 && len(samples) < 2 {
 				samples = append(samples, fmt.Sprintf("term day %s times %v", in3, times[2:]))
 			}
+			// digest level for the first time of this day: reflection over every getter on a third of the days,
+			// incl. the heavy getters on a smaller sample; the complete field digest otherwise
+			dayLevel := -1
+			if k := rng.Intn(48); k == 0 {
+				dayLevel = 2
+				nDeep++
+			} else if k < 4 {
+				dayLevel = 1
+				nRefl++
+			} else if k < 16 {
+				dayLevel = 0
+				nRefl++
+			}
 			for ti, t := range times {
 				t := t
 				s := sol(y, m, d, t.h, t.mi, t.s)
@@ -341,9 +410,12 @@ func searchC01() {
 				})
 				// both construction paths observably identical
 				ck.chk("path-independence", in, func() (bool, string, string) {
-					deep := ti == 0 || ti >= 2
-					a, b := c01Digest(l, deep), c01Digest(l2, deep)
-					if len(a) < 150 {
+					level := -1
+					if ti == 0 {
+						level = dayLevel
+					}
+					a, b := c01Digest(l, level), c01Digest(l2, level)
+					if level >= 0 && len(a) < 150 {
 						return false, fmt.Sprintf("digest has only %d getters", len(a)), "harness: reflection digest broken"
 					}
 					if name, va, vb := c01Diff(a, b); name != "" {
@@ -354,7 +426,7 @@ func searchC01() {
 				if t.h == 0 && t.mi == 0 && t.s == 0 {
 					ck.chk("path-independence-ymd", in, func() (bool, string, string) {
 						l3 := calendar.NewLunarFromYmd(l.GetYear(), l.GetMonth(), l.GetDay())
-						name, va, vb := c01Diff(c01Digest(l, false), c01Digest(l3, false))
+						name, va, vb := c01Diff(c01Digest(l, -1), c01Digest(l3, -1))
 						return name == "", name + ": " + c01Short(va), c01Short(vb)
 					})
 				}
@@ -364,7 +436,7 @@ func searchC01() {
 				// stepping: lunar side == civil side
 				j0 := c01Jdn(y, m, d)
 				ns := []int{1, -1, steps[rng.Intn(len(steps))] % 800}
-				if rng.Intn(6) == 0 {
+				if rng.Intn(10) == 0 {
 					ns = append(ns, steps[rng.Intn(len(steps))])
 					nFarSteps++
 				}
@@ -375,7 +447,12 @@ func searchC01() {
 					}
 					ck.chk("next-vs-nextday", fmt.Sprintf("%s n=%d", in, n), func() (bool, string, string) {
 						e := s.NextDay(n)
-						for k, src := range []*calendar.Lunar{l, l2} {
+						el := e.GetLunar()
+						srcs := []*calendar.Lunar{l}
+						if n == 1 || n == -1 {
+							srcs = append(srcs, l2)
+						}
+						for k, src := range srcs {
 							r := src.Next(n)
 							rs := r.GetSolar()
 							if !eqSolar(rs, e) {
@@ -384,7 +461,6 @@ func searchC01() {
 							if j := c01Jdn(rs.GetYear(), rs.GetMonth(), rs.GetDay()); j != j0+n {
 								return false, fmt.Sprintf("%s is day number %d", solarStr(rs), j), fmt.Sprintf("day number %d", j0+n)
 							}
-							el := e.GetLunar()
 							if !c01SameLunarYmdHms(r, el) {
 								return false, "Next(n) = " + c01LunarStr(r), "NextDay(n).GetLunar() = " + c01LunarStr(el)
 							}
@@ -409,7 +485,7 @@ func searchC01() {
 							return false, c01LunarStr(r1) + " " + solarStr(r1.GetSolar()), c01LunarStr(r2) + " " + solarStr(r2.GetSolar())
 						}
 						if a == -b || rng.Intn(40) == 0 {
-							name, va, vb := c01Diff(c01Digest(r1, false), c01Digest(r2, false))
+							name, va, vb := c01Diff(c01Digest(r1, -1), c01Digest(r2, -1))
 							return name == "", name + ": " + c01Short(va), c01Short(vb)
 						}
 						return true, "", ""
@@ -470,6 +546,8 @@ func searchC01() {
 	fmt.Fprintf(out, "COUNT %d\n", ck.count)
 	fmt.Fprintf(out, "STAT term_instant_times=%d\n", nTermTimes)
 	fmt.Fprintf(out, "STAT far_steps=%d\n", nFarSteps)
+	fmt.Fprintf(out, "STAT deep_digests=%d\n", nDeep)
+	fmt.Fprintf(out, "STAT reflection_digests=%d\n", nRefl)
 	fmt.Fprintf(out, "STAT days_lunar_year_differs=%d\n", nCrossYear)
 	fmt.Fprintf(out, "STAT leap_month_days=%d\n", nLeapDays)
 	fmt.Fprintf(out, "STAT lunar_side_days=%d\n", nLunarSide)
